@@ -143,7 +143,7 @@ def run_case(case):
                 ref = jm.ref_logabsdet(J)
                 fallback = True
                 r.count("edge_fallbacks")
-                if abs(float(li) - lib) > 1e-2 * (1 + abs(lib)):
+                if abs(float(li) - lib) > 1e-2 * (1 + abs(lib)) and min(lib, float(li)) > -12.0:
                     r.viol("edge_discontinuity", "%s logabsdet jumps at a domain edge" % fam, item=i, at_edge=lib,
                            inside=float(li), cfg=cfg, policy=pol)
                 lib = float(li)
@@ -250,7 +250,7 @@ def run_spline_fn(case):
             xn = torch.where(art & near_lo, xj + 1e-9 * (hi_e - lo_e), torch.where(art & near_hi, xj - 1e-9 * (hi_e - lo_e), xj))
             out2, lad2, grad2 = jm.elementwise_derivative(lambda z: fn(inputs=z, inverse=False, **params, **kw), xn)
             r.count("edge_fallbacks", int(art.sum()))
-            jump = art & ((lad2 - lad).abs() > 1e-2 * (1 + lad.abs()))
+            jump = art & ((lad2 - lad).abs() > 1e-2 * (1 + lad.abs())) & (torch.minimum(lad, lad2) > -12.0)
             if jump.any():
                 k = int(jump.nonzero()[0])
                 r.viol("edge_discontinuity", "spline %s logabsdet jumps at a domain edge" % fam, x=float(xj[k]),
